@@ -31,8 +31,8 @@ class Packed(BaseType, Generic[T]):
     def _read_array(cls, stream: BinaryIO, count: int, context: dict[str, Any] | None = None) -> list[Self]:
         if count == EOF:
             data = stream.read()
-            length = len(data)
-            count = length // cls.size
+            count = len(data) // cls.size
+            length = count * cls.size
         else:
             length = cls.size * count
             data = stream.read(length)
